@@ -10,7 +10,7 @@ EXPLANATION = ('Static rules on the conversion sinks and the completion status: 
                'sends at least one message on every path; R2 the stream ends after a terminal (end marker sent, or poll_next maps the closed '
                'channel to Ready(None) and constructs Pending only by propagating the inner poll); R3 StatusFuture::poll registers its waker '
                'before the flag read that decides Pending (no lost wake-up); R4 the producer stores the flag before wake(), after the '
-               'downstream terminal; R5 future observer complete = send then close; R11 collect adds every item to its collection and emits it on every completing path, also for an empty source (same rule as C03.S10); R10 the values complete()/error() store into the status flag (and its initial value) are read by is_closed/is_completed/error_occur as documented (truth table over the three flag values; wait_for_end decides through is_closed); R7 the sinks report finished only when the waiting side dropped the channel (otherwise a hot source skips them at its terminal and the future never resolves); R6 the message sent by error() carries the err argument on every path (the outcome reported is the error of the source). Decides the hand-off protocol; does not decide which '
+               'downstream terminal; R5 future observer complete = send then close; R12 next()/is_finished() of the status observer never write the flag nor wake (only a terminal of the source publishes a status); R11 collect adds every item to its collection and emits it on every completing path, also for an empty source (same rule as C03.S10); R10 the values complete()/error() store into the status flag (and its initial value) are read by is_closed/is_completed/error_occur as documented (truth table over the three flag values; wait_for_end decides through is_closed); R7 the sinks report finished only when the waiting side dropped the channel (otherwise a hot source skips them at its terminal and the future never resolves); R6 the message sent by error() carries the err argument on every path (the outcome reported is the error of the source). Decides the hand-off protocol; does not decide which '
                'value is produced (Empty/MultipleValues logic).')
 ASSUMPTIONS = ['futures unbounded channel and AtomicWaker behave as documented (a message sent before the sender is dropped is received; wake() after register() wakes)']
 
@@ -48,7 +48,7 @@ def check(cx):
 
 
 def _check_own(cx):
-    return r1_r5(cx) + r2(cx) + r3(cx) + r4(cx) + r6(cx) + r7(cx) + r8(cx) + r9(cx) + r10(cx) + r11(cx)
+    return r1_r5(cx) + r2(cx) + r3(cx) + r4(cx) + r6(cx) + r7(cx) + r8(cx) + r9(cx) + r10(cx) + r11(cx) + r12(cx)
 
 
 def r1_r5(cx):
@@ -205,6 +205,30 @@ def r4(cx):
                                fn['span'], bad[1] if bad else None))
     if not cx.control and n < 2:
         res.append(Finding(ID, 'R4', 'floor', False, 'StatusObserver terminal methods not found'))
+    return res
+
+
+def r12(cx):
+    res = []
+    # R12: only a terminal of the source publishes a status: next()/is_finished() of the status observer neither write the flag
+    # nor wake the waiter (a downstream that finished early - take, first - is not the source having completed or failed)
+    m = 0
+    for im in cx.observer_impls():
+        tag = roles.impl_tag(cx, im)
+        if tag != 'ops::complete_status::StatusObserver':
+            continue
+        for meth in ('next', 'is_finished'):
+            fn = cx.method(im, meth)
+            if fn is None:
+                continue
+            g = cx.graph(fn['key'])
+            m += 1
+            wr = [nd for nd in g.nodes if nd['kind'] == 'call' and _tail(nd, 'store', 'swap', 'fetch_add', 'fetch_or', 'fetch_sub', 'fetch_xor', 'fetch_and', 'compare_exchange', 'wake', 'wake_by_ref')]
+            res.append(Finding(ID, 'R12', cx.label(fn), not wr,
+                               'does not publish a status' if not wr else 'publishes a status (%s) outside the terminal methods: the status reports completed / closed and wait_for_end returns while the source has neither completed nor failed' % wr[0]['name'].rsplit('::', 1)[-1],
+                               g.loc(wr[0]) if wr else fn['span']))
+    if not cx.control and m < 1:
+        res.append(Finding(ID, 'R12', 'floor', False, 'StatusObserver::next not found'))
     return res
 
 
